@@ -357,10 +357,13 @@ class ArgumentParser:
         namespace._passes = {}
 
         # Configure the parser for arguments common to all compilers.
+        # A rule added later (by the user configuration) for a flag that is
+        # already known replaces the earlier rule instead of raising.
         parser = argparse.ArgumentParser(
             add_help=False,
             exit_on_error=False,
             allow_abbrev=False,
+            conflict_handler="resolve",
         )
         parser.add_argument("-D", dest="defines", action="append")
         parser.add_argument(
